@@ -85,6 +85,7 @@ def gen_fn_scenario(rng: random.Random, static_only=True, simple_sigs=False, bod
         npos = max(npos, 2)
         plain_pos = 0
     defs = []
+    respelled = []
     # instances of every user class (two of some, so that identity matters)
     args = []
     for c in range(NBUILTIN, w.n):
@@ -117,6 +118,24 @@ def gen_fn_scenario(rng: random.Random, static_only=True, simple_sigs=False, bod
                 params.append({"name": n, "kind": "ko", "req": rng.random() < 0.5, "ty": rng.choice(pool_types)})
         if defs and rng.random() < 0.15:
             params = json.loads(json.dumps(rng.choice(defs)["params"]))
+            # the same signature written with another parameter name, or with a positional-only parameter made
+            # nameable (names and positional-only-ness are not part of a signature's identity: the new definition
+            # replaces the old one, and the entry point must follow the definitions that are registered NOW)
+            pos_ps = [p for p in params if p["kind"] != "ko"]
+            if pos_ps and not lead_strict_opt and rng.random() < 0.5:
+                respelled.append(i)
+                q = rng.choice(pos_ps)
+                if rng.random() < 0.6:
+                    q["name"] = q["name"] + 3 if q["name"] < 3 else q["name"] - 3
+                else:
+                    # (positional-only parameters come first: the change carries over to the ones before / after)
+                    qi = pos_ps.index(q)
+                    if q["kind"] == "po":
+                        for x in pos_ps[qi:]:
+                            x["kind"] = "pk"
+                    else:
+                        for x in pos_ps[: qi + 1]:
+                            x["kind"] = "po"
         body = ["ret"]
         if bodies and rng.random() < 0.45:
             kind = rng.choice(["callNext", "callNext", "callNext", "recurse", "next"])
@@ -227,6 +246,25 @@ def gen_fn_scenario(rng: random.Random, static_only=True, simple_sigs=False, bod
         seen = set()
         kw = [e for e in kw if not (e[0] in seen or seen.add(e[0]))]
         ops.append(["call", pos, kw])
+    # a respelled signature: make sure both spellings get registered, remove the older one now and then, and call
+    # with every positional that has a name given by keyword, under the newer and under the older name
+    for i in respelled[:1]:
+        twin = next((d for d in defs[:i] if [(p["kind"] == "ko", p["ty"], p["req"]) for p in d["params"]] == [(p["kind"] == "ko", p["ty"], p["req"]) for p in defs[i]["params"]]), None)
+        if twin is None:
+            continue
+        ops += [["reg", twin["id"]], ["reg", i]]
+        if rng.random() < 0.6:
+            ops.append(["unreg", twin["id"]])
+        for d in (defs[i], twin, defs[i]):
+            pp = [p for p in d["params"] if p["kind"] != "ko"]
+            nreq = len([p for p in pp if p["req"]])
+            vals = [rng.choice(fit(p["ty"]) or [rng.randrange(len(args))]) for p in pp[:nreq]]
+            cut = rng.randint(0, max(0, nreq - 1))
+            pos = vals[:cut]
+            kw = [[p["name"], v] for p, v in zip(pp[cut:nreq], vals[cut:]) if p["kind"] == "pk"]
+            if len(kw) == nreq - cut:
+                kw += [[p["name"], rng.choice(fit(p["ty"]) or [rng.randrange(len(args))])] for p in d["params"] if p["kind"] == "ko" and p["req"]]
+                ops.append(["call", pos, kw])
     alltys = []
     for d in defs:
         for p in d["params"]:
